@@ -109,6 +109,44 @@ fn function_trivia_contains_comments(trivia: &Token) -> bool {
         || matches!(trivia.token_type(), TokenType::MultiLineComment { comment, .. } if comment.as_str().lines().count() > 1 )
 }
 
+/// Determines whether there is a single line comment in between the operators, operands and parentheses
+/// which make up an expression (comments leading or trailing the whole expression are not included)
+fn expression_contains_inline_singleline_comments(expression: &Expression) -> bool {
+    let is_singleline_comment = |trivia: &Token| trivia_util::trivia_is_singleline_comment(trivia);
+
+    match expression {
+        Expression::BinaryOperator { lhs, binop, rhs } => {
+            lhs.trailing_trivia().iter().any(is_singleline_comment)
+                || trivia_util::contains_singleline_comments(binop)
+                || rhs.leading_trivia().iter().any(is_singleline_comment)
+                || expression_contains_inline_singleline_comments(lhs)
+                || expression_contains_inline_singleline_comments(rhs)
+        }
+        Expression::UnaryOperator { unop, expression } => {
+            trivia_util::contains_singleline_comments(unop)
+                || expression.leading_trivia().iter().any(is_singleline_comment)
+                || expression_contains_inline_singleline_comments(expression)
+        }
+        Expression::Parentheses {
+            contained,
+            expression,
+        } => {
+            let (start_parens, end_parens) = contained.tokens();
+            start_parens.has_trailing_comments(CommentSearch::Single)
+                || end_parens.has_leading_comments(CommentSearch::Single)
+                || expression.leading_trivia().iter().any(is_singleline_comment)
+                || expression.trailing_trivia().iter().any(is_singleline_comment)
+                || expression_contains_inline_singleline_comments(expression)
+        }
+        #[cfg(feature = "luau")]
+        Expression::TypeAssertion { expression, .. } => {
+            expression.trailing_trivia().iter().any(is_singleline_comment)
+                || expression_contains_inline_singleline_comments(expression)
+        }
+        _ => false,
+    }
+}
+
 /// Determines whether a parenthesised function call contains comments, forcing it to go multiline
 fn function_args_contains_comments(
     parentheses: &ContainedSpan,
@@ -131,6 +169,8 @@ fn function_args_contains_comments(
             || argument
                 .punctuation()
                 .map_or(false, |token| token.leading_trivia().chain(token.trailing_trivia()).any(function_trivia_contains_comments))
+            // A single line comment inside of the expression would comment out the rest of the arguments
+            || expression_contains_inline_singleline_comments(argument.value())
         })
     }
 }
